@@ -321,8 +321,10 @@ func (p *C11) Check(sc *scen.Scenario, run *orch.Run, env *orch.Env) []orch.Viol
 				continue
 			}
 			if !ret.New {
-				// C10's business (a With call must create a logger); the format model cannot follow
-				return dedupe(out)
+				// that a With call must create a logger is C10's business; here: the existing logger it
+				// returned instead must not have changed its format because of this call on another logger
+				// (the model keeps it as it was, the getter comparison below reports the change)
+				break
 			}
 			from = ps
 			state[ret.ID] = fmtApply(ps, op.Kind, op.B)
